@@ -4,6 +4,31 @@ import json, os, subprocess
 V = os.path.dirname(os.path.dirname(os.path.abspath(__file__)))
 ids = [json.loads(l)["id"] for l in open(os.path.join(V, "properties.jsonl"))]
 
+
+# what the later batches of seeded changes added to each check (appended to the claim texts)
+ADDENDA = {
+ "C01": " Also: the bursts under agent configurations enumerated by TLC (AgentConfig.tla), and a volume scenario (one exchange held at the backend across 1100 / 9000 others).",
+ "C02": " Also: the case set under agent configurations enumerated by TLC (AgentConfig.tla; the ServeMux redirect of non-canonical paths under banner / shim configurations is modelled as ReqOKUnder).",
+ "C03": " Also: configurations from AgentConfig.tla, backends quiet for 5.5 s (31 s, 62 s) before the header / inside the body, h2c trailers after an announced length, and exchanges cut by the agent's time-out (CutCase: what arrives without an error is the backend's response).",
+ "C04": " Also: agent configurations from AgentConfig.tla (fresh agent, histories and a 60-ID window each), list replies in four framings, a sentinel ID that closes every history.",
+ "C05": " Also: a handler quiet for 5.5 s (31 s, 62 s) between chunks, streams that name no media type; deviation Upload.Timers idle-cut refuted by TLC.",
+ "C06": " Also: uploads quiet for 5.5 s (31 s, 62 s) between two pieces, redirecting endpoints (307 / 308), fixed must-scripts; deviation Upload.Timers release-replay refuted by TLC.",
+ "C07": " Also: fault kinds post-cut and be-oddstatus, a fault-volume scenario (130 / 1100 exchanges failing the same way, then concurrent healthy bursts), streamed (chunked) client bodies; scenarios judged up to their Final event.",
+ "C08": " Also: agent configurations from AgentConfig.tla (time-out classes none / 5m / 1s), failures with a Retry-After header.",
+ "C09": " Also: shim open with userinfo in the websocket URL under every flag combination.",
+ "C10": " Also: client cookies spread over several Cookie lines, cookie Domain classes (public suffix, foreign, parent).",
+ "C11": " Also: a session idle for 6.5 s (32 s, 63 s) and used again, a backend that stops reading while the pipeline is full, injectable JSON in binary frames.",
+ "C12": " Also: shim calls sent chunked, an abandoned poll, an unpolled session next to 1100 / 9000 other sessions; deviation WsShim.SweepDone refuted by TLC.",
+ "C13": " Also: the agent configured with a host without a port, reserved-character classes, backend redirects.",
+ "C14": " Also: handler configurations (banner HTML, height, favicon URL, shim path), Content-Encoding, decision strata exported by TLC.",
+ "C15": " Also: a reply that keeps flowing for 5.5 s (31 s, 62 s) after a half-close, a reader paused beyond a write deadline, the library entry points with small read buffers; deviations TcpBridge.Timers refuted by TLC.",
+ "C16": " Also: connections idle for 5.5 s (31 s, 62 s) before the close, churn with a descriptor count, slow readers with half-close-then-reply.",
+ "C17": " Also: the backend-ID header on two lines, backend IDs with reserved characters, near-miss identities, registration histories from AppAuth.tla.",
+ "C18": " Also: request targets in absolute-form and with percent-encoded letters.",
+ "C19": " Also: the response cache (AppCache.tla: GET / HEAD / POST / ranged-GET sequences on one URL enumerated by TLC, judged by AppCacheTrace), an outage of blob-part writes followed by recovery, repeated header fields.",
+ "C20": " Also: signals delivered twice, SIGTERM before the first healthy check, thresholds up to 3 over all histories of length <= 5.",
+}
+
 CLAIMS = {
  "C04": dict(engine="AgentDedup", technique="TLA+ specs AgentDedup (adversarial lister vs LRU dedup; NoDedup and Window attacks) and Relay (ID hand-off), TLC-enumerated list histories replayed on the real agent binary via a scripted fake proxy, TLC trace validation (AgentDedupTrace, RelayTrace)",
    text="TLC checks AtMostOnce/ExactlyOnce for every list history and worker interleaving in the bounded model; TLC enumerates all 60 879 list histories (<=3 replies of <=3 IDs over 3 IDs) of the environment action, a seeded sample (160 quick / 3000 thorough, plus fixed repeat/permutation shapes and 999/1000-ID window-edge runs) is replayed against the real agent binary and each recorded run must be a behaviour of AgentDedup with every listed ID forwarded and served exactly once; concurrent foreign pollers against the real proxy must be explained by Relay (HandOffOnce).",
@@ -108,6 +133,8 @@ m = {
 engines = {}
 for pid in ids:
     c = CLAIMS.get(pid)
+    if c and ADDENDA.get(pid) and not c["text"].endswith(ADDENDA[pid]):
+        c = dict(c, text=c["text"] + ADDENDA[pid])
     if not c:
         m["not_applicable"].append({"property_id": pid, "reason": "check not built yet (work in progress; DESIGN.md section 6 describes the planned TLA+ module and conformance harness)"})
         continue
